@@ -13,7 +13,6 @@ use crate::{
 };
 use alloc::string::String;
 use core::str::FromStr;
-use num_traits::AsPrimitive;
 
 use super::{duration::normalized::NormalizedTimeDuration, PlainDateTime};
 
@@ -130,30 +129,13 @@ impl PlainTime {
     ///
     /// Spec Equivalent: `AddDurationToOrSubtractDurationFromPlainTime`.
     pub(crate) fn add_to_time(&self, duration: &TimeDuration) -> TemporalResult<Self> {
-        let (_, result) = IsoTime::balance(
-            FiniteF64::from(self.hour())
-                .checked_add(&duration.hours)?
-                .as_(),
-            FiniteF64::from(self.minute())
-                .checked_add(&duration.minutes)?
-                .as_(),
-            FiniteF64::from(self.second())
-                .checked_add(&duration.seconds)?
-                .as_(),
-            FiniteF64::from(self.millisecond())
-                .checked_add(&duration.milliseconds)?
-                .as_(),
-            FiniteF64::from(self.microsecond())
-                .checked_add(&duration.microseconds)?
-                .as_(),
-            FiniteF64::from(self.nanosecond())
-                .checked_add(&duration.nanoseconds)?
-                .as_(),
-        );
+        // AddTime works on the exact time duration in nanoseconds: the individual
+        // fields of a valid duration can exceed the range of an `i64`.
+        let (_, result) = self.add_normalized_time_duration(duration.to_normalized());
 
         // NOTE (nekevss): IsoTime::balance should never return an invalid `IsoTime`
 
-        Ok(Self::new_unchecked(result))
+        Ok(result)
     }
 
     // TODO: Migrate to
